@@ -31,7 +31,13 @@ class DataDir:
     def place(self, fileno, block_bytes, at=None, size=None, magic=None):
         """magic + size prefix + block; returns the data offset recorded in the index"""
         size = len(block_bytes) if size is None else size
-        magic = self.magic if magic is None else magic
+        if magic is None:
+            # the index names the data offset only; the eight bytes before it are not an input.  Ambient variation: every
+            # fifth block is preceded by another network's magic or by arbitrary bytes (RBP_VERIF_NO_AMBIENT=1 switches it off).
+            self._placed = getattr(self, '_placed', 0) + 1
+            magic = self.magic
+            if os.environ.get('RBP_VERIF_NO_AMBIENT') is None and self._placed % 5 == 3:
+                magic = (0x40cf030a, 0xdab5bffa, 0x00000000, 0xffffffff)[(self._placed // 5) % 4]
         start = self.raw(fileno, struct.pack('<II', magic, size) + block_bytes, at)
         return start + 8
 
